@@ -26,9 +26,12 @@
    (c) pipeline_empty_operand      UnaryUnion(g) = setOp(g, or, Geometry{}): when the second operand has no component,
                                    no cell of the complex carries its label, Intersection extracts the empty
                                    collection, and or / andNot / xor extract the same geometry - for all first operands.
-       COMMUTATIVITY of Union / Intersection / SymmetricDifference in the operands is NOT proved for the composed
-       model (the two overlays differ by a renumbering of half edges and faces, and ordinates are compared up to
-       Qeq); it is EVALUATED by the driver on every compared overlay (SPEC pipeline_commutes: the model's results on
+       extract_label_symmetric_partial   what exchanging the operands does to the LABELS (the two bits of every cell
+                                   swapped) does not change what union / intersection / symmetric difference extract.
+       COMMUTATIVITY of Union / Intersection / SymmetricDifference in the operands is NOT proved in full for the
+       composed model: overlay (b, a) is the label-swapped overlay (a, b) only up to a renumbering of half edges and
+       faces (insertion order) and ordinates are compared up to Qeq - that isomorphism is not proved; it is EVALUATED
+       by the driver on every compared overlay (SPEC pipeline_commutes: the model's results on
        (a,b) and (b,a), value equality, else equality of point sets by the verified judge) and shown in the examples.
    (d) labels and geometry.  FULL STATEMENT WANTED (not proved - it is the correctness theorem of the overlay engine):
        for every face f of the composed complex with witness point w = face_witness ov f,
@@ -134,6 +137,12 @@ Theorem pipeline_empty_operand : forall a b : geom,
   overlay_result OpSym a b = overlay_result OpUnion a b.
 Proof. exact pipeline_empty_operand_lemma. Qed.
 Print Assumptions pipeline_empty_operand.
+
+(* exchanging the operands, as far as the labels go: swap_ov swaps the two bits of every label of the complex *)
+Theorem extract_label_symmetric_partial : forall (o : setop) (ov : overlay),
+  o <> OpDiff -> extract_geometry o (swap_ov ov) = extract_geometry o ov.
+Proof. exact extract_label_symmetric_lemma. Qed.
+Print Assumptions extract_label_symmetric_partial.
 
 (* ================================================================ (d) labels and geometry, partial *)
 Theorem pipeline_face_label_seed_partial : forall a b : geom,
@@ -255,4 +264,12 @@ Proof. vm_compute. split; reflexivity. Qed.
 (* the non-degeneracy hypothesis of face_witness_partial holds on the example *)
 Example ex_pieces_nondegenerate :
   option_map (fun ov => forallb (fun u => negb (pt_eqb (fst u) (snd u))) (all_pieces ov)) (overlay_dcel_full exA exB) = Some true.
+Proof. vm_compute. reflexivity. Qed.
+(* extract_label_symmetric_partial is not vacuous: the swapped complex is a different complex, and Difference
+   (excluded by the hypothesis) does change *)
+Example ex_label_swap :
+  option_map (fun ov => (map f_in (c_faces (ov_cx (swap_ov ov))),
+                         match extract_geometry OpDiff (swap_ov ov), extract_geometry OpDiff ov with
+                         | Some g, Some h => same_set g h | _, _ => true end)) (overlay_dcel_full exA exB)
+  = Some ([(false, true); (false, true); (false, false); (true, true); (true, false)], false).
 Proof. vm_compute. reflexivity. Qed.
